@@ -1,7 +1,719 @@
-//! C19 — not built yet.
+//! C19 — file discovery honours extensions and the ignore file.
+//!
+//! Two ties (DESIGN.md 6.19, notes/C19.md):
+//!  (gi)   the Gallina gitignore specification `gi_ignored` vs the `ignore` crate's
+//!         `Gitignore::matched_path_or_any_parents` on generated (pattern lines, paths);
+//!  (pipe) the Gallina pipeline `linted` / `written` vs the real `sqruff` binary built from the
+//!         tree: keys (and multiplicities) of `sqruff lint -f json <args>` and the files rewritten by
+//!         `sqruff fix --force <args>` on generated directory trees x extension lists x ignore files
+//!         x path arguments.
+//! Independently of the model, every pipeline run is judged directly against the property text
+//! with the `ignore` crate as the gitignore reference (`Buf::direct`).
+use std::collections::{BTreeMap, BTreeSet};
+use std::path::{Path, PathBuf};
+use std::process::{Command, Stdio};
+
+use ignore::gitignore::{Gitignore, GitignoreBuilder};
+use serde_json::{Value, json};
+use sqruff_lib::core::config::FluffConfig;
+
 use crate::common::*;
 
-pub fn main(_args: &Args) {
-    eprintln!("c19: not built yet");
-    std::process::exit(2);
+const SQL: &str = "SELECT 1 from t\n"; // exactly one (fixable) CP01 violation per processing
+const DIRS: &[&str] = &["temp", "sub", "build", "models", "Temp", ".hid", "d.sql", "t"];
+const FILES: &[&str] = &["a.sql", "b.sql", "c.SQL", "x.hql", "n.txt", "m.sql.j2", ".h.sql", "README", "q.ddl", "e.Sql", "asql", "temp"];
+const EXTS: &[&str] = &["", ".sql", ".sql,.hql", ".hql", ".sql,sql", ".j2,.sql", ".txt,.sql", ".ddl,.dml,.sql.j2", ".SQL", ".Sql,.hql"];
+const NAMES: &[&str] = &["temp", "sub", "build", "models", "Temp", ".hid", "d.sql", "t", "a.sql", "b.sql", "c.SQL", "x.hql", "n.txt", "m.sql.j2", ".h.sql", "README"];
+const GLOBS: &[&str] = &["*.sql", "*.hql", "*", "a*", "?.sql", "t*p", "*.s?l", "*.SQL", "te??", "*e*", ".*", "*.sql.j2", "??", "b*.sql"];
+
+// ------------------------------------------------------------------ generators
+fn gen_comp(rng: &mut Rng) -> String {
+    match rng.below(10) {
+        0..=4 => NAMES[rng.below(NAMES.len())].to_string(),
+        5..=8 => GLOBS[rng.below(GLOBS.len())].to_string(),
+        _ => "**".to_string(),
+    }
+}
+
+/// One line of an ignore file from the README-documented forms (plus negation).
+fn gen_line(rng: &mut Rng, allow_neg: bool) -> String {
+    match rng.below(20) {
+        0 => return String::new(),
+        1 => return "   ".to_string(),
+        2 => return format!("# {}", NAMES[rng.below(NAMES.len())]),
+        3 => return format!("#{}/", DIRS[rng.below(DIRS.len())]),
+        4 | 5 => return format!("{}/", DIRS[rng.below(DIRS.len())]),
+        6 | 7 => return GLOBS[rng.below(GLOBS.len())].to_string(),
+        _ => {}
+    }
+    let n = match rng.below(10) {
+        0..=4 => 1,
+        5..=7 => 2,
+        _ => 3,
+    };
+    let mut comps: Vec<String> = vec![];
+    for _ in 0..n {
+        let c = gen_comp(rng);
+        // "**" only as a whole component, never twice in a row (outside the modelled subset)
+        if c == "**" && comps.last().map(|l| l == "**").unwrap_or(false) {
+            comps.push(NAMES[rng.below(NAMES.len())].to_string());
+        } else {
+            comps.push(c);
+        }
+    }
+    let mut s = comps.join("/");
+    if rng.chance(1, 4) {
+        s.insert(0, '/');
+    }
+    if rng.chance(1, 3) && !s.ends_with("**") {
+        s.push('/');
+    }
+    if allow_neg && rng.chance(1, 6) {
+        s.insert(0, '!');
+    }
+    if rng.chance(1, 15) {
+        s.push_str("  ");
+    }
+    s
+}
+
+fn gen_lines(rng: &mut Rng) -> Vec<String> {
+    let allow_neg = rng.chance(2, 3);
+    let n = rng.range(1, 5);
+    (0..n).map(|_| gen_line(rng, allow_neg)).collect()
+}
+
+fn gen_path(rng: &mut Rng) -> (Vec<String>, bool) {
+    let depth = rng.range(1, 4);
+    let mut p = vec![];
+    for _ in 0..depth {
+        p.push(NAMES[rng.below(NAMES.len())].to_string());
+    }
+    (p, rng.chance(1, 3))
+}
+
+#[derive(Clone)]
+struct TreeCase {
+    tree: Vec<(Vec<String>, bool)>,
+    exts_cfg: String,
+    lines: Option<Vec<String>>,
+    args: Vec<(u8, Vec<String>)>, // (0 Rel | 1 Dot | 2 Abs, components)
+    cls: &'static str,
+}
+
+fn gen_tree(rng: &mut Rng) -> Vec<(Vec<String>, bool)> {
+    let mut dirs: Vec<Vec<String>> = vec![vec![]];
+    let ndirs = rng.range(0, 5);
+    for _ in 0..ndirs {
+        let parent = dirs[rng.below(dirs.len())].clone();
+        if parent.len() >= 3 {
+            continue;
+        }
+        let mut d = parent;
+        d.push(DIRS[rng.below(DIRS.len())].to_string());
+        if !dirs.contains(&d) {
+            dirs.push(d);
+        }
+    }
+    let mut entries: BTreeMap<Vec<String>, bool> = BTreeMap::new();
+    for d in dirs.iter().skip(1) {
+        entries.insert(d.clone(), true);
+    }
+    let nfiles = rng.range(1, 8);
+    for _ in 0..nfiles {
+        let mut f = dirs[rng.below(dirs.len())].clone();
+        f.push(FILES[rng.below(FILES.len())].to_string());
+        entries.entry(f).or_insert(false);
+    }
+    let mut v: Vec<_> = entries.into_iter().collect();
+    rng.shuffle(&mut v);
+    v
+}
+
+fn gen_args(rng: &mut Rng, tree: &[(Vec<String>, bool)]) -> Vec<(u8, Vec<String>)> {
+    match rng.below(10) {
+        0 => return vec![],
+        1 | 2 => return vec![(1, vec![])],
+        _ => {}
+    }
+    let n = rng.range(1, 3);
+    let mut args: Vec<(u8, Vec<String>)> = vec![];
+    for _ in 0..n {
+        if !args.is_empty() && rng.chance(1, 4) {
+            // duplicate of an earlier argument, possibly spelled differently
+            let (_, p) = args[rng.below(args.len())].clone();
+            let pf = if p.is_empty() { [1u8, 2][rng.below(2)] } else { rng.below(3) as u8 };
+            args.push((pf, p));
+            continue;
+        }
+        if rng.chance(1, 6) {
+            args.push(([1u8, 2][rng.below(2)], vec![]));
+            continue;
+        }
+        let (p, d) = tree[rng.below(tree.len())].clone();
+        // a directory is sometimes spelled with a trailing slash ("sub/")
+        let k = if d && rng.chance(1, 5) { 3 } else { rng.below(3) as u8 };
+        args.push((k, p));
+    }
+    args
+}
+
+fn gen_case(rng: &mut Rng) -> TreeCase {
+    let tree = gen_tree(rng);
+    let exts_cfg = EXTS[rng.below(EXTS.len())].to_string();
+    let (lines, cls) = match rng.below(6) {
+        0 => (None, "no-ignore-file"),
+        1 => (Some(vec!["# ignore ALL .hql files".to_string(), "*.hql".to_string(), String::new(), "# ignore ALL files in ANY directory named temp".to_string(), "temp/".to_string()]), "readme-ignore-file"),
+        2 => {
+            // directory patterns naming directories of this tree
+            let ds: Vec<&Vec<String>> = tree.iter().filter(|(_, d)| *d).map(|(p, _)| p).collect();
+            let mut ls = vec![];
+            for _ in 0..rng.range(1, 2) {
+                if ds.is_empty() {
+                    ls.push("temp/".to_string());
+                } else {
+                    let d = ds[rng.below(ds.len())];
+                    ls.push(format!("{}/", d.last().unwrap()));
+                }
+            }
+            (Some(ls), "dir-pattern")
+        }
+        _ => (Some(gen_lines(rng)), "random-patterns"),
+    };
+    let args = gen_args(rng, &tree);
+    TreeCase { tree, exts_cfg, lines, args, cls }
+}
+
+// ------------------------------------------------------------------ Gallina / JSON printers
+fn g_path(p: &[String]) -> String {
+    g_list(p.iter().map(|c| g_str(c)))
+}
+fn g_pfx(k: u8) -> &'static str {
+    match k {
+        0 | 3 => "Rel",
+        1 => "Dot",
+        _ => "Abs",
+    }
+}
+fn g_out(o: &(u8, Vec<String>)) -> String {
+    format!("({},{})", g_pfx(o.0), g_path(&o.1))
+}
+
+fn build_gi(lines: &[String]) -> Result<Gitignore, String> {
+    let mut b = GitignoreBuilder::new("/sqv-root");
+    for l in lines {
+        b.add_line(None, l).map_err(|e| e.to_string())?;
+    }
+    b.build().map_err(|e| e.to_string())
+}
+
+/// The reference for "ignored under gitignore semantics": the `ignore` crate's single-path decision
+/// `Gitignore::matched` asked for the path and for each parent directory up to (not including) the root;
+/// the path is ignored when some level is decided "ignore" (git: a negation cannot re-include a file below
+/// an excluded directory).
+fn ref_ignored(gi: &Gitignore, p: &[String], is_dir: bool) -> bool {
+    (1..=p.len()).rev().any(|n| gi.matched(Path::new(&p[..n].join("/")), is_dir || n < p.len()).is_ignore())
+}
+/// The nearest-decision walk (`matched_path_or_any_parents` without its step onto the empty path).
+fn ref_nearest(gi: &Gitignore, p: &[String], is_dir: bool) -> bool {
+    let mut d = is_dir;
+    for n in (1..=p.len()).rev() {
+        let m = gi.matched(Path::new(&p[..n].join("/")), d);
+        if !m.is_none() {
+            return m.is_ignore();
+        }
+        d = true;
+    }
+    false
+}
+
+// ------------------------------------------------------------------ (gi) spec vs ignore crate
+struct GiItem {
+    lines: Vec<String>,
+    paths: Vec<(Vec<String>, bool)>,
+    cls: &'static str,
+}
+
+fn run_gi(it: &GiItem, out: &mut Buf) {
+    let gi = match build_gi(&it.lines) {
+        Ok(g) => g,
+        Err(_) => {
+            out.count("gi_pattern_rejected_by_crate", 1);
+            return;
+        }
+    };
+    let mut exp: Vec<(u8, bool, bool)> = vec![];
+    let mut any_true = false;
+    let mut any_parent = false;
+    for (p, d) in &it.paths {
+        let joined = p.join("/");
+        let r = catch(|| {
+            let m = gi.matched(Path::new(&joined), *d);
+            let code = if m.is_none() { 0u8 } else if m.is_ignore() { 1 } else { 2 };
+            (code, ref_ignored(&gi, p, *d), ref_nearest(&gi, p, *d), gi.matched_path_or_any_parents(Path::new(&joined), *d).is_ignore())
+        });
+        let Ok((code, r, near, crate_walk)) = r else {
+            out.count("gi_crate_panic", 1);
+            return;
+        };
+        if crate_walk != near {
+            out.count("gi_paths_where_matched_path_or_any_parents_differs_from_the_nearest_walk_(empty_path_quirk)", 1);
+        }
+        if near != r {
+            out.count("gi_paths_where_nearest_walk_differs_from_gitignore_(negation_below_ignored_dir)", 1);
+        }
+        if r {
+            any_true = true;
+            if code != 1 {
+                any_parent = true;
+            }
+        }
+        exp.push((code, r, near));
+    }
+    out.count("gi_paths", it.paths.len());
+    if any_parent {
+        out.count("gi_cases_ignored_through_a_parent", 1);
+    }
+    let args = g_tuple(&[
+        g_list(it.lines.iter().map(|l| g_str(l))),
+        g_list(it.paths.iter().map(|(p, d)| g_tuple(&[g_path(p), g_bool(*d)]))),
+    ]);
+    let expg = g_list(exp.iter().map(|(c, b, n)| format!("({},{},{})", c, g_bool(*b), g_bool(*n))));
+    let sample = json!({"input":{"kind":"gi","lines":it.lines,"paths":it.paths}, "crate_decision_gitignore_nearest":exp});
+    // the hypothesis "the reference implementation agrees with the specification" is evaluated in Coq
+    // (a mismatch of group gi is reported as a broken correspondence)
+    out.case("gi", it.cls, any_true, args, expg, sample);
+}
+
+// ------------------------------------------------------------------ (git) spec vs git itself
+/// `git check-ignore --no-index` in a scratch repository whose .gitignore holds the lines; every path is
+/// materialised (file or directory) on its own, asked about, and removed again.
+fn run_git(scratch: &Path, idx: usize, it: &GiItem, out: &mut Buf) {
+    let root = scratch.join(format!("g{}", idx));
+    let _ = std::fs::remove_dir_all(&root);
+    if std::fs::create_dir_all(&root).is_err() {
+        return;
+    }
+    let git = |args: &[&str]| {
+        Command::new("git")
+            .current_dir(&root)
+            .env("GIT_CONFIG_GLOBAL", "/dev/null")
+            .env("GIT_CONFIG_NOSYSTEM", "1")
+            .env("HOME", &root)
+            .args(args)
+            .stdin(Stdio::null())
+            .stdout(Stdio::null())
+            .stderr(Stdio::null())
+            .status()
+            .ok()
+            .and_then(|s| s.code())
+    };
+    if git(&["init", "-q", "."]) != Some(0) {
+        out.count("git_not_available", 1);
+        let _ = std::fs::remove_dir_all(&root);
+        return;
+    }
+    let _ = std::fs::write(root.join(".gitignore"), it.lines.join("\n") + "\n");
+    let mut exp = vec![];
+    for (p, d) in &it.paths {
+        let full = root.join(p.join("/"));
+        let made = if *d { std::fs::create_dir_all(&full).is_ok() } else { full.parent().map(|x| std::fs::create_dir_all(x).is_ok()).unwrap_or(false) && std::fs::write(&full, "x").is_ok() };
+        let joined = p.join("/");
+        let r = if made { git(&["check-ignore", "-q", "--no-index", &joined]) } else { None };
+        let _ = std::fs::remove_dir_all(root.join(&p[0]));
+        let _ = std::fs::remove_file(root.join(&p[0]));
+        match r {
+            Some(0) => exp.push(true),
+            Some(1) => exp.push(false),
+            _ => {
+                out.count("git_query_failed", 1);
+                let _ = std::fs::remove_dir_all(&root);
+                return;
+            }
+        }
+    }
+    let _ = std::fs::remove_dir_all(&root);
+    out.count("git_paths", it.paths.len());
+    let args = g_tuple(&[
+        g_list(it.lines.iter().map(|l| g_str(l))),
+        g_list(it.paths.iter().map(|(p, d)| g_tuple(&[g_path(p), g_bool(*d)]))),
+    ]);
+    let any_true = exp.iter().any(|b| *b);
+    let expg = g_list(exp.iter().map(|b| g_bool(*b)));
+    let sample = json!({"input":{"kind":"git","lines":it.lines,"paths":it.paths}, "git_check_ignore_says":exp});
+    out.case("git", it.cls, any_true, args, expg, sample);
+}
+
+// ------------------------------------------------------------------ (pipe) real binary
+struct Env {
+    sqruff: PathBuf,
+    scratch: PathBuf,
+}
+
+fn spell(root: &Path, a: &(u8, Vec<String>)) -> String {
+    let j = a.1.join("/");
+    match a.0 {
+        0 => j,
+        3 => format!("{}/", j),
+        1 => {
+            if j.is_empty() {
+                ".".to_string()
+            } else {
+                format!("./{}", j)
+            }
+        }
+        _ => {
+            if j.is_empty() {
+                root.display().to_string()
+            } else {
+                format!("{}/{}", root.display(), j)
+            }
+        }
+    }
+}
+
+fn unspell(root: &str, s: &str) -> (u8, Vec<String>) {
+    let comps = |r: &str| -> Vec<String> { r.split('/').filter(|c| !c.is_empty()).map(|c| c.to_string()).collect() };
+    if let Some(r) = s.strip_prefix(root) {
+        (2, comps(r))
+    } else if let Some(r) = s.strip_prefix("./") {
+        (1, comps(r))
+    } else {
+        (0, comps(s))
+    }
+}
+
+fn sort_key(o: &(u8, Vec<String>)) -> Vec<u8> {
+    let mut k = vec![o.0];
+    k.extend_from_slice(o.1.join("/").as_bytes());
+    k
+}
+
+fn old_time() -> std::time::SystemTime {
+    std::time::UNIX_EPOCH + std::time::Duration::from_secs(946_684_800)
+}
+
+fn materialise(root: &Path, c: &TreeCase) -> std::io::Result<()> {
+    std::fs::create_dir_all(root)?;
+    for (p, d) in &c.tree {
+        if *d {
+            std::fs::create_dir_all(root.join(p.join("/")))?;
+        }
+    }
+    for (p, d) in &c.tree {
+        if !*d {
+            let f = root.join(p.join("/"));
+            if let Some(par) = f.parent() {
+                std::fs::create_dir_all(par)?;
+            }
+            std::fs::write(&f, SQL)?;
+            let fh = std::fs::File::options().write(true).open(&f)?;
+            fh.set_modified(old_time())?;
+        }
+    }
+    let mut cfg = String::from("[sqruff]\ndialect = ansi\nrules = CP01\n");
+    if !c.exts_cfg.is_empty() {
+        cfg.push_str(&format!("sql_file_exts = {}\n", c.exts_cfg));
+    }
+    std::fs::write(root.join(".sqruff"), cfg)?;
+    if let Some(ls) = &c.lines {
+        std::fs::write(root.join(".sqruffignore"), ls.join("\n") + "\n")?;
+    }
+    Ok(())
+}
+
+fn cfg_exts(exts_cfg: &str) -> Vec<String> {
+    let mut cfg = String::from("[sqruff]\ndialect = ansi\nrules = CP01\n");
+    if !exts_cfg.is_empty() {
+        cfg.push_str(&format!("sql_file_exts = {}\n", exts_cfg));
+    }
+    FluffConfig::from_source(&cfg, None).sql_file_exts().to_vec()
+}
+
+struct Obs {
+    status: Option<i32>,
+    outs: Option<Vec<(u8, Vec<String>)>>, // multiset, sorted
+    stderr: String,
+}
+
+fn run_lint(env: &Env, root: &Path, args: &[String]) -> Obs {
+    let o = Command::new(&env.sqruff)
+        .current_dir(root)
+        .env("RUST_BACKTRACE", "0")
+        .env("NO_COLOR", "1")
+        .arg("lint")
+        .arg("-f")
+        .arg("json")
+        .args(args)
+        .stdin(Stdio::null())
+        .output();
+    let Ok(o) = o else {
+        return Obs { status: None, outs: None, stderr: "spawn failed".into() };
+    };
+    let stderr = trunc(&String::from_utf8_lossy(&o.stderr), 400);
+    let status = o.status.code();
+    let parsed: Option<Value> = serde_json::from_slice(&o.stdout).ok();
+    let rootp = format!("{}/", root.display());
+    let outs = match (status, parsed) {
+        (Some(0) | Some(1), Some(Value::Object(m))) => {
+            let mut v = vec![];
+            for (k, vs) in m {
+                let n = vs.as_array().map(|a| a.len()).unwrap_or(0);
+                let key = if k == rootp.trim_end_matches('/') { (2u8, vec![]) } else { unspell(&rootp, &k) };
+                for _ in 0..n {
+                    v.push(key.clone());
+                }
+                if n == 0 {
+                    // a linted file without a violation: cannot happen with SQL, keep it visible
+                    v.push((9, key.1.clone()));
+                }
+            }
+            v.sort_by_key(sort_key);
+            Some(v)
+        }
+        _ => None,
+    };
+    Obs { status, outs, stderr }
+}
+
+fn run_pipe(env: &Env, idx: usize, c: &TreeCase, out: &mut Buf) {
+    let root = env.scratch.join(format!("t{}", idx));
+    let _ = std::fs::remove_dir_all(&root);
+    let input = json!({"kind":"pipe","tree":c.tree,"exts":c.exts_cfg,"lines":c.lines,"args":c.args,"cls":c.cls});
+    if let Err(e) = materialise(&root, c) {
+        out.count("materialise_failed", 1);
+        let _ = std::fs::remove_dir_all(&root);
+        eprintln!("materialise: {e}");
+        return;
+    }
+    let root = root.canonicalize().unwrap_or(root);
+    let spelled: Vec<String> = c.args.iter().map(|a| spell(&root, a)).collect();
+    let exts = cfg_exts(&c.exts_cfg);
+    let lint = run_lint(env, &root, &spelled);
+
+    // fix mode on the same (still unmodified) tree: which files are rewritten?
+    let fix = Command::new(&env.sqruff)
+        .current_dir(&root)
+        .env("RUST_BACKTRACE", "0")
+        .env("NO_COLOR", "1")
+        .arg("fix")
+        .arg("--force")
+        .args(&spelled)
+        .stdin(Stdio::null())
+        .output();
+    let fix_status = fix.as_ref().ok().and_then(|o| o.status.code());
+    let mut written: Vec<Vec<String>> = vec![];
+    let mut changed_content: Vec<Vec<String>> = vec![];
+    for (p, d) in &c.tree {
+        if !*d {
+            let f = root.join(p.join("/"));
+            let m = std::fs::metadata(&f).and_then(|m| m.modified()).ok();
+            if m != Some(old_time()) {
+                written.push(p.clone());
+            }
+            if std::fs::read_to_string(&f).map(|s| s != SQL).unwrap_or(true) {
+                changed_content.push(p.clone());
+            }
+        }
+    }
+    written.sort_by_key(|p| p.join("/").into_bytes());
+    let _ = std::fs::remove_dir_all(&root);
+
+    // ---------------- direct judgement against the property text (reference: the ignore crate)
+    let eff_args: Vec<(u8, Vec<String>)> = if c.args.is_empty() { vec![(2, vec![])] } else { c.args.clone() };
+    let gi = c.lines.as_ref().map(|l| build_gi(l));
+    let gi = match gi {
+        Some(Err(_)) => {
+            out.count("pipe_pattern_rejected_by_crate", 1);
+            return;
+        }
+        Some(Ok(g)) => Some(g),
+        None => None,
+    };
+    let is_dir = |p: &Vec<String>| p.is_empty() || c.tree.iter().any(|(q, d)| q == p && *d);
+    let has_ext = |name: &str| exts.iter().any(|e| name.to_lowercase().ends_with(e.to_lowercase().as_str()));
+    let mut expected: BTreeSet<Vec<String>> = BTreeSet::new();
+    for (_, a) in &eff_args {
+        if is_dir(a) {
+            for (p, d) in &c.tree {
+                if !*d && p.len() > a.len() && p[..a.len()] == a[..] && has_ext(p.last().unwrap()) {
+                    expected.insert(p.clone());
+                }
+            }
+        } else {
+            expected.insert(a.clone());
+        }
+    }
+    let ignored = |p: &Vec<String>| gi.as_ref().map(|g| ref_ignored(g, p, false)).unwrap_or(false);
+    let n_ignored = expected.iter().filter(|p| ignored(p)).count();
+    let n_ignored_parent = expected.iter().filter(|p| ignored(p) && !gi.as_ref().unwrap().matched(Path::new(&p.join("/")), false).is_ignore()).count();
+    let expected: BTreeSet<Vec<String>> = expected.into_iter().filter(|p| !ignored(p)).collect();
+    out.count("pipe_runs", 1);
+    out.count("pipe_candidate_files_ignored", n_ignored);
+    out.count("pipe_candidate_files_ignored_through_parent_dir", n_ignored_parent);
+    out.count("pipe_expected_files", expected.len());
+    let has_dup_args = {
+        let mut s = BTreeSet::new();
+        eff_args.iter().any(|(_, a)| !s.insert(a.clone())) || (eff_args.len() > 1 && eff_args.iter().any(|(_, a)| is_dir(a)))
+    };
+    if has_dup_args {
+        out.count("pipe_runs_with_duplicate_or_overlapping_args", 1);
+    }
+    if c.tree.iter().any(|(p, d)| *d && has_ext(p.last().unwrap())) {
+        out.count("pipe_runs_with_directory_named_like_sql", 1);
+    }
+    match &lint.outs {
+        None => {
+            out.direct(c.cls, false, "c19-lint-crash", &format!("sqruff lint did not produce a report (status {:?}): {}", lint.status, lint.stderr), input.clone());
+        }
+        Some(outs) => {
+            let observed: BTreeSet<Vec<String>> = outs.iter().map(|o| o.1.clone()).collect();
+            let extra: Vec<_> = observed.difference(&expected).cloned().collect();
+            let missing: Vec<_> = expected.difference(&observed).cloned().collect();
+            let dup = outs.len() != observed.len();
+            let wset: BTreeSet<Vec<String>> = written.iter().cloned().collect();
+            if let Some(p) = extra.first() {
+                let key = if ignored(p) { "c19-ignored-file-linted" } else { "c19-unexpected-file-linted" };
+                out.direct(c.cls, false, key, &format!("linted but not in the specified set: {}", p.join("/")), input.clone());
+            } else if let Some(p) = missing.first() {
+                out.direct(c.cls, false, "c19-file-not-linted", &format!("in the specified set but not linted: {}", p.join("/")), input.clone());
+            } else if dup {
+                out.direct(c.cls, false, "c19-file-processed-twice", "a file is reported more than once", input.clone());
+            } else if fix_status != Some(0) && fix_status != Some(1) {
+                out.direct(c.cls, false, "c19-fix-crash", &format!("sqruff fix exited with {:?}", fix_status), input.clone());
+            } else if wset != expected {
+                let w: Vec<_> = wset.symmetric_difference(&expected).map(|p| p.join("/")).collect();
+                let key = if wset.difference(&expected).any(|p| ignored(p)) { "c19-ignored-file-written" } else { "c19-written-set-differs" };
+                out.direct(c.cls, false, key, &format!("files written by fix differ from the specified set: {:?}", w), input.clone());
+            } else if changed_content.iter().cloned().collect::<BTreeSet<_>>() != expected {
+                out.direct(c.cls, false, "c19-fixed-content-set-differs", "files whose content changed differ from the specified set", input.clone());
+            } else {
+                out.direct(c.cls, true, "", "", Value::Null);
+            }
+        }
+    }
+
+    // ---------------- correspondence case for the Gallina pipeline
+    let args = g_tuple(&[
+        g_list(c.tree.iter().map(|(p, d)| format!("{{| e_path := {}; e_dir := {} |}}", g_path(p), g_bool(*d)))),
+        g_list(exts.iter().map(|e| g_str(e))),
+        g_list(c.lines.clone().unwrap_or_default().iter().map(|l| g_str(l))),
+        g_list(c.args.iter().map(|a| format!("{{| a_pfx := {}; a_path := {} |}}", g_pfx(a.0), g_path(&a.1)))),
+    ]);
+    let exp = match &lint.outs {
+        Some(outs) if fix_status == Some(0) || fix_status == Some(1) => format!(
+            "(Some ({},{}))",
+            g_list(outs.iter().map(g_out)),
+            g_list(written.iter().map(|p| g_path(p)))
+        ),
+        _ => "None".to_string(),
+    };
+    let nontrivial = n_ignored > 0 || has_dup_args;
+    let sample = json!({"input":input,"argv":spelled,"lint_status":lint.status,"fix_status":fix_status,
+        "linted":lint.outs.as_ref().map(|v| v.iter().map(|o| format!("{}:{}", g_pfx(o.0), o.1.join("/"))).collect::<Vec<_>>()),
+        "written":written.iter().map(|p| p.join("/")).collect::<Vec<_>>()});
+    out.case("pipe", c.cls, nontrivial, args, exp, sample);
+}
+
+fn parse_tree_case(v: &Value) -> TreeCase {
+    let strs = |x: &Value| -> Vec<String> { x.as_array().map(|a| a.iter().map(|s| s.as_str().unwrap_or("").to_string()).collect()).unwrap_or_default() };
+    TreeCase {
+        tree: v["tree"].as_array().map(|a| a.iter().map(|e| (strs(&e[0]), e[1].as_bool().unwrap_or(false))).collect()).unwrap_or_default(),
+        exts_cfg: v["exts"].as_str().unwrap_or("").to_string(),
+        lines: if v["lines"].is_null() { None } else { Some(strs(&v["lines"])) },
+        args: v["args"].as_array().map(|a| a.iter().map(|e| (e[0].as_u64().unwrap_or(0) as u8, strs(&e[1]))).collect()).unwrap_or_default(),
+        cls: "replay",
+    }
+}
+
+enum Item {
+    Gi(GiItem),
+    Git(usize, GiItem),
+    Pipe(usize, TreeCase),
+}
+
+pub fn main(args: &Args) {
+    silence_panics();
+    let mut out = Out::new(&args.out);
+    let mut rng = Rng::new(args.seed);
+    let sqruff = PathBuf::from(args.flag("--sqruff").expect("--sqruff <binary> required"));
+    let scratch = PathBuf::from(args.flag("--scratch").expect("--scratch <dir> required")).join(format!("c19-{}", std::process::id()));
+    std::fs::create_dir_all(&scratch).expect("scratch");
+    let env = Env { sqruff, scratch: scratch.clone() };
+    let mut items: Vec<Item> = vec![];
+    let s = |x: &str| x.to_string();
+    let p = |x: &str| -> Vec<String> { x.split('/').filter(|c| !c.is_empty()).map(|c| c.to_string()).collect() };
+
+    if let Some(path) = args.flag("--replay-input") {
+        let v: Value = serde_json::from_str(&std::fs::read_to_string(path).unwrap()).unwrap();
+        let v = if v.get("input").is_some() { v["input"].clone() } else { v };
+        if v["kind"] == "gi" || v["kind"] == "git" {
+            let strs = |x: &Value| -> Vec<String> { x.as_array().map(|a| a.iter().map(|s| s.as_str().unwrap_or("").to_string()).collect()).unwrap_or_default() };
+            let g = GiItem {
+                lines: strs(&v["lines"]),
+                paths: v["paths"].as_array().map(|a| a.iter().map(|e| (strs(&e[0]), e[1].as_bool().unwrap_or(false))).collect()).unwrap_or_default(),
+                cls: "replay",
+            };
+            items.push(if v["kind"] == "git" { Item::Git(0, g) } else { Item::Gi(g) });
+        } else {
+            items.push(Item::Pipe(0, parse_tree_case(&v)));
+        }
+    } else {
+        // ---- regression corpus first: the README example and the three repaired defects
+        let readme = vec![s("# ignore ALL .hql files"), s("*.hql"), s(""), s("# ignore ALL files in ANY directory named temp"), s("temp/")];
+        let t1 = vec![(p("a.sql"), false), (p("temp"), true), (p("temp/b.sql"), false), (p("sub"), true), (p("sub/temp"), true), (p("sub/temp/c.sql"), false), (p("x.hql"), false), (p("U.SQL"), false)];
+        items.push(Item::Pipe(0, TreeCase { tree: t1.clone(), exts_cfg: s(".sql,.hql"), lines: Some(readme.clone()), args: vec![(1, vec![])], cls: "regression" }));
+        items.push(Item::Pipe(0, TreeCase { tree: t1.clone(), exts_cfg: s(""), lines: Some(readme.clone()), args: vec![], cls: "regression" }));
+        items.push(Item::Pipe(0, TreeCase { tree: t1.clone(), exts_cfg: s(""), lines: Some(readme.clone()), args: vec![(0, p("temp/b.sql")), (0, p("sub"))], cls: "regression" }));
+        items.push(Item::Pipe(0, TreeCase { tree: t1.clone(), exts_cfg: s(""), lines: None, args: vec![(1, vec![]), (0, p("a.sql")), (1, p("a.sql")), (2, p("a.sql")), (0, p("sub")), (0, p("sub/temp"))], cls: "regression" }));
+        let mut t2 = t1.clone();
+        t2.push((p("d.sql"), true));
+        t2.push((p("d.sql/e.sql"), false));
+        items.push(Item::Pipe(0, TreeCase { tree: t2, exts_cfg: s(""), lines: None, args: vec![(1, vec![])], cls: "regression" }));
+        items.push(Item::Pipe(0, TreeCase { tree: t1.clone(), exts_cfg: s(".SQL"), lines: None, args: vec![(1, vec![]), (3, p("sub"))], cls: "regression" }));
+        // a negation cannot re-include below an ignored directory; "*/" does not ignore root-level files
+        items.push(Item::Pipe(0, TreeCase { tree: t1.clone(), exts_cfg: s(""), lines: Some(vec![s("temp/"), s("!b.sql"), s("!c.sql")]), args: vec![(1, vec![])], cls: "regression" }));
+        items.push(Item::Pipe(0, TreeCase { tree: t1.clone(), exts_cfg: s(""), lines: Some(vec![s("*/")]), args: vec![(1, vec![]), (0, p("sub/temp/c.sql"))], cls: "regression" }));
+        items.push(Item::Gi(GiItem {
+            lines: readme.clone(),
+            paths: vec![(p("temp/b.sql"), false), (p("sub/temp/c.sql"), false), (p("a.sql"), false), (p("x.hql"), false), (p("sub/x.hql"), false), (p("temp"), true), (p("temp"), false)],
+            cls: "regression",
+        }));
+
+        items.push(Item::Git(
+            1_000_000,
+            GiItem {
+                lines: vec![s("temp/"), s("!b.sql"), s("*.hql")],
+                paths: vec![(p("temp/b.sql"), false), (p("sub/temp/b.sql"), false), (p("b.sql"), false), (p("a.sql"), false), (p("temp"), true), (p("temp"), false), (p("sub/x.hql"), false)],
+                cls: "regression",
+            },
+        ));
+        let (n_gi, n_pipe) = if args.thorough() { (20000, 6000) } else { (2500, 700) };
+        for _ in 0..n_gi {
+            let lines = gen_lines(&mut rng);
+            let np = rng.range(3, 8);
+            let paths: Vec<(Vec<String>, bool)> = (0..np).map(|_| gen_path(&mut rng)).collect();
+            if items.len() % 4 == 0 {
+                items.push(Item::Git(items.len(), GiItem { lines: lines.clone(), paths: paths.clone(), cls: "random-patterns" }));
+            }
+            items.push(Item::Gi(GiItem { lines, paths, cls: "random-patterns" }));
+        }
+        for _ in 0..n_pipe {
+            items.push(Item::Pipe(0, gen_case(&mut rng)));
+        }
+    }
+    let mut k = 0usize;
+    for it in items.iter_mut() {
+        if let Item::Pipe(i, _) = it {
+            *i = k;
+            k += 1;
+        }
+    }
+    par_run(&mut out, &items, || (), |_, it, buf| match it {
+        Item::Gi(g) => run_gi(g, buf),
+        Item::Git(i, g) => run_git(&env.scratch, *i, g, buf),
+        Item::Pipe(i, c) => run_pipe(&env, *i, c, buf),
+    });
+    let _ = std::fs::remove_dir_all(&scratch);
+    out.finish();
 }
